@@ -1,6 +1,7 @@
 import Grexv.Lemmas.DefaultExact
 import Grexv.Lemmas.Presentation
 import Grexv.Lemmas.Sort
+import Grexv.Lemmas.Stages
 
 /-
 S1 … S9 and matching composed, for every combination of the six shorthand-class options and capturing groups
@@ -17,33 +18,36 @@ theorem sortCases_mem' (ws : List Str) (w : Str) : w ∈ sortCases ws ↔ w ∈ 
 theorem accepts_iff_langFrom' (d : Dfa) (w : Word) : d.Accepts w ↔ d.LangFrom d.init w := by
   simp [Dfa.Accepts, Dfa.LangFrom, Dfa.isFinal, List.contains_iff_mem]
 
-/-- everything that changes the *text* of the pattern beyond the class options, capturing groups and the
-case-insensitivity flag is off -/
+/-- everything that changes the *text* of the pattern beyond the class options, capturing groups, `-e`, the
+case-insensitivity flag and a single disabled anchor is off (with both anchors disabled `RegExp::from` runs its
+self-check and may keep another expression) -/
 structure PlainPrintCI (cfg : Config) : Prop where
   rep : cfg.rep = false
   sur : cfg.sur = false
   verb : cfg.verb = false
-  noStart : cfg.noStart = false
-  noEnd : cfg.noEnd = false
   color : cfg.color = false
+  anch : (cfg.noStart && cfg.noEnd) = false
 
-/-- … and case-sensitive, without `-e` -/
+/-- … and case-sensitive, without `-e`, both anchors -/
 structure PlainPrint (cfg : Config) : Prop extends PlainPrintCI cfg where
   ci : cfg.ci = false
   esc : cfg.esc = false
+  noStart : cfg.noStart = false
+  noEnd : cfg.noEnd = false
 
-theorem plainPrint_cfgPlain (cap : Bool) : PlainPrint (cfgPlain cap false) := ⟨⟨rfl, rfl, rfl, rfl, rfl, rfl⟩, rfl, rfl⟩
+theorem plainPrint_cfgPlain (cap : Bool) : PlainPrint (cfgPlain cap false) := ⟨⟨rfl, rfl, rfl, rfl, rfl⟩, rfl, rfl, rfl, rfl⟩
 
 theorem fmtRegExp_plainCI_eq (cfg : Config) (h : PlainPrintCI cfg) (e : Expr) :
-    fmtRegExp cfg e = ciPrefix cfg.ci ++ fmtRegExp (cfgPlain cfg.cap cfg.esc) e := by
-  have hb : bodyText cfg e = bodyText (cfgPlain cfg.cap cfg.esc) e :=
-    bodyText_congr (c1 := cfg) (c2 := cfgPlain cfg.cap cfg.esc) ⟨rfl, rfl, h.sur, h.verb, h.color⟩ e
+    fmtRegExp cfg e = ciPrefix cfg.ci ++ fmtRegExp (cfgAnch cfg.cap cfg.esc cfg.noStart cfg.noEnd) e := by
+  have hb : bodyText cfg e = bodyText (cfgAnch cfg.cap cfg.esc cfg.noStart cfg.noEnd) e :=
+    bodyText_congr (c1 := cfg) (c2 := cfgAnch cfg.cap cfg.esc cfg.noStart cfg.noEnd) ⟨rfl, rfl, h.sur, h.verb, h.color⟩ e
   cases hci : cfg.ci with
   | false =>
-    simp only [fmtRegExp, hci, h.verb, h.noStart, h.noEnd, h.color, cfgPlain, hb, Bool.and_false, Bool.false_eq_true,
+    simp only [fmtRegExp, hci, h.verb, h.color, cfgAnch, hb, Bool.and_false, Bool.false_eq_true,
       ite_false, ciPrefix, List.nil_append, Bool.false_and]
+    try rfl
   | true =>
-    simp only [fmtRegExp, hci, h.verb, h.noStart, h.noEnd, h.color, cfgPlain, hb, Bool.and_false, Bool.false_eq_true,
+    simp only [fmtRegExp, hci, h.verb, h.color, cfgAnch, hb, Bool.and_false, Bool.false_eq_true,
       ite_false, ite_true, ciPrefix, List.nil_append, Bool.false_and, Comp.flagI, paint, Gen.strFlagI, List.append_assoc]
     have hR : ∀ x : Str, R ([40, 63, 105, 41] ++ x) = [40, 63, 105, 41] ++ R x := by
       intro x; rw [R_append]; rfl
@@ -51,7 +55,7 @@ theorem fmtRegExp_plainCI_eq (cfg : Config) (h : PlainPrintCI cfg) (e : Expr) :
 
 theorem fmtRegExp_plain_eq (cfg : Config) (h : PlainPrint cfg) (e : Expr) :
     fmtRegExp cfg e = fmtRegExp (cfgPlain cfg.cap cfg.esc) e := by
-  rw [fmtRegExp_plainCI_eq cfg h.toPlainPrintCI, h.ci]; rfl
+  rw [fmtRegExp_plainCI_eq cfg h.toPlainPrintCI, h.ci, h.noStart, h.noEnd]; rfl
 
 theorem plainBs_atoms_nil (c : Cluster) (h : PlainBs c) (ha : atomsOf c = []) : c = [] := by
   cases c with
@@ -79,7 +83,7 @@ theorem classes_exact_ci (cfg : Config) (hp : PlainPrintCI cfg) (env : Env) (ws 
     ∃ P, Spec.parse (fmtRegExp cfg st.finalAst) = some (⟨cfg.ci, false⟩, P) ∧
       (Spec.fullMatch cfg.ci P s = true ↔
         ∃ t ∈ storedCases cfg env ws, t ≠ [] ∧ atomsDen cfg.ci (t.map (convAtom cfg)) s) := by
-  have hanch : (cfg.noStart && cfg.noEnd) = false := by simp [hp.noStart]
+  have hanch : (cfg.noStart && cfg.noEnd) = false := hp.anch
   simp only [regExpFrom, hanch, Bool.false_eq_true, ite_false] at h
   change (match Dfa.minimize (Dfa.trie (graphemeClusters cfg env (sortCases (storedCases cfg env ws)))) Dfa.pickMin with
     | none => _ | some dmin => _) = _ at h
@@ -136,7 +140,7 @@ theorem classes_exact_ci (cfg : Config) (hp : PlainPrintCI cfg) (env : Env) (ws 
       rw [← accepts_iff_langFrom', hacc, he] at this
       exact this.mpr hwitness
   rw [fmtRegExp_plainCI_eq cfg hp, hof]
-  obtain ⟨P, hparse, hmatch⟩ := printed_accepts_ci cfg.ci cfg.cap cfg.esc _ hwf s hs
+  obtain ⟨P, hparse, hmatch⟩ := printed_acceptsA cfg.ci cfg.cap cfg.esc cfg.noStart cfg.noEnd _ hwf s hs
   refine ⟨P, hparse, ?_⟩
   rw [hmatch]
   simp only [Expr.strLang, ← hof, hlangE]
@@ -171,11 +175,187 @@ theorem classes_exact (cfg : Config) (hp : PlainPrint cfg) (env : Env) (ws : Lis
   rw [hst, hp.ci] at this
   exact this
 
+theorem trie_acyclic_paths (cls : List Cluster) (hcls : ∀ cl ∈ cls, ∀ g ∈ cl, g.Simple) :
+    ∀ c w, Dfa.Path (Dfa.trie cls) c w c → w = [] := by
+  intro c w pth
+  have ht := (Dfa.trie_tree_alpha cls hcls).1
+  apply Classical.byContradiction
+  intro hw
+  have := Dfa.Path.lt_of_ne_nil (fun e he => (ht.lt e he).1) pth hw
+  omega
+
+/-- the presentation conditions of `classes_exact_ci` without the one on the anchors -/
+structure PlainPrintNA (cfg : Config) : Prop where
+  rep : cfg.rep = false
+  sur : cfg.sur = false
+  verb : cfg.verb = false
+  color : cfg.color = false
+
+theorem fmtRegExp_plainNA_eq (cfg : Config) (h : PlainPrintNA cfg) (e : Expr) :
+    fmtRegExp cfg e = ciPrefix cfg.ci ++ fmtRegExp (cfgAnch cfg.cap cfg.esc cfg.noStart cfg.noEnd) e := by
+  have hb : bodyText cfg e = bodyText (cfgAnch cfg.cap cfg.esc cfg.noStart cfg.noEnd) e :=
+    bodyText_congr (c1 := cfg) (c2 := cfgAnch cfg.cap cfg.esc cfg.noStart cfg.noEnd) ⟨rfl, rfl, h.sur, h.verb, h.color⟩ e
+  cases hci : cfg.ci with
+  | false =>
+    simp only [fmtRegExp, hci, h.verb, h.color, cfgAnch, hb, Bool.and_false, Bool.false_eq_true,
+      ite_false, ciPrefix, List.nil_append, Bool.false_and]
+    try rfl
+  | true =>
+    simp only [fmtRegExp, hci, h.verb, h.color, cfgAnch, hb, Bool.and_false, Bool.false_eq_true,
+      ite_false, ite_true, ciPrefix, List.nil_append, Bool.false_and, Comp.flagI, paint, Gen.strFlagI, List.append_assoc]
+    have hR : ∀ x : Str, R ([40, 63, 105, 41] ++ x) = [40, 63, 105, 41] ++ R x := by
+      intro x; rw [R_append]; rfl
+    exact hR _
+
+/-- **every anchor setting, including both anchors disabled (where `RegExp::from` runs its self-check and keeps one of
+three expressions): the returned pattern accepts no more than the test cases and no less than the non-empty ones.**
+For every subset of the class options, with or without capturing groups, `-e`, `-i`; all inputs.  (With both anchors
+disabled the fall-back expressions keep the empty test case, the first candidate loses it: known finding D1.) -/
+theorem classes_bounds_any_anchor (cfg : Config) (hp : PlainPrintNA cfg) (env : Env) (ws : List Str) (st : Stages)
+    (h : regExpFrom cfg env ws = .ok st) (hseg : ∀ w ∈ storedCases cfg env ws, SegOK env w)
+    (hne : ∃ t ∈ storedCases cfg env ws, t ≠ [])
+    (s : Str) (hs : ∀ c ∈ s, Scalar c) :
+    ∃ P, Spec.parse (fmtRegExp cfg st.finalAst) = some (⟨cfg.ci, false⟩, P) ∧
+      (Spec.fullMatch cfg.ci P s = true → ∃ t ∈ storedCases cfg env ws, atomsDen cfg.ci (t.map (convAtom cfg)) s) ∧
+      (∀ t ∈ storedCases cfg env ws, t ≠ [] → atomsDen cfg.ci (t.map (convAtom cfg)) s →
+        Spec.fullMatch cfg.ci P s = true) := by
+  have hthree := from_final_three cfg env ws st h
+  obtain ⟨h1, h2, h3, h4, h5⟩ := from_stages_shape cfg env ws st h
+  change st.sorted = sortCases (storedCases cfg env ws) at h1
+  generalize storedCases cfg env ws = ws1 at h1 hseg hne ⊢
+  have hseg' : ∀ w ∈ sortCases ws1, SegOK env w := fun w hw => hseg w ((sortCases_mem' ws1 w).mp hw)
+  obtain ⟨f, hcl, hpl⟩ := clusters_atoms cfg hp.rep env (sortCases ws1) hseg'
+  rw [← h1, ← h2] at hcl
+  generalize hcls : st.clusters = cls at *
+  have hclP : ∀ cl ∈ cls, PlainBs cl := by
+    intro cl hc
+    rw [hcl] at hc
+    obtain ⟨w, hw, rfl⟩ := List.mem_map.mp hc
+    exact (hpl w (by rw [← h1]; exact hw)).1
+  have hsimple : ∀ cl ∈ cls, ∀ g ∈ cl, g.Simple := by
+    intro cl hc g hg
+    obtain ⟨x, _, _, rfl⟩ := hclP cl hc g hg
+    exact ofStr_simple _
+  have hPl : ∀ cl ∈ cls, ∀ g ∈ cl, (fun g => PlainBs [g]) g := by
+    intro cl hc g hg g' hg'
+    simp only [List.mem_singleton] at hg'
+    subst hg'
+    exact hclP cl hc g' hg
+  obtain ⟨t0, ht0, ht0ne⟩ := hne
+  have hmem0 : t0 ∈ sortCases ws1 := (sortCases_mem' ws1 t0).mpr ht0
+  have hwitness : f t0 ∈ cls ∧ f t0 ≠ [] := by
+    refine ⟨by rw [hcl, h1]; exact List.mem_map.mpr ⟨t0, hmem0, rfl⟩, ?_⟩
+    intro hc
+    have := (hpl t0 hmem0).2
+    rw [hc] at this
+    cases t0 with
+    | nil => exact ht0ne rfl
+    | cons a r => simp [atomsOf] at this
+  -- each of the three candidates is well-formed and denotes a language between the non-empty clusters and the clusters
+  have hcand : st.finalAst.WF ∧ (∀ w : Word, st.finalAst.lang w → w ∈ cls) ∧
+      (∀ w : Word, w ∈ cls → w ≠ [] → st.finalAst.lang w) := by
+    rcases hthree with hf | hf | hf
+    · -- the expression of the minimised automaton
+      obtain ⟨m, hm, hacc, hlab, hdfs, hN, hacyc⟩ := Grexv.min_struct cls hsimple (fun g => PlainBs [g]) hPl
+      rw [← h3, h4] at hm
+      simp only [Option.some.injEq] at hm
+      subst hm
+      have hof : Expr.ofDfa cfg st.minimized = Expr.ofDfa (cfgPlain cfg.cap cfg.esc) st.minimized :=
+        ofDfa_congr (c1 := cfg) (c2 := cfgPlain cfg.cap cfg.esc) rfl _
+      have hwf := ofDfa_wf cfg.cap cfg.esc st.minimized hlab hdfs hacyc
+      have hlang := elimination_lang_acyclic cfg st.minimized (labelsBs_plain _ hlab) hN hdfs hacyc
+      have hlangE : ∀ w : Word, (Expr.ofDfa cfg st.minimized).lang w ↔ (w ∈ cls ∧ w ≠ []) := by
+        intro w
+        rw [ofDfa_eq]
+        have hl := hlang w
+        rw [← accepts_iff_langFrom', hacc w] at hl
+        split
+        · rename_i e he
+          rw [he] at hl
+          exact hl
+        · rename_i he
+          exfalso
+          have := (hlang (f t0))
+          rw [← accepts_iff_langFrom', hacc, he] at this
+          exact this.mpr hwitness
+      rw [hf]
+      exact ⟨by rw [hof]; exact hwf, fun w hw => ((hlangE w).mp hw).1, fun w h1 h2 => (hlangE w).mpr ⟨h1, h2⟩⟩
+    · -- the expression of the unminimised trie
+      have ht := (Dfa.trie_tree_alpha cls hsimple).1
+      have hlab : LabelsBs (Dfa.trie cls) := trie_labels (fun g => PlainBs [g]) cls hsimple hPl
+      have hdfs := dfsOK_of_bounded (Dfa.trie cls) (by rw [ht.init0]; exact ht.pos) (fun e he => (ht.lt e he).2)
+      have hacyc := trie_acyclic_paths cls hsimple
+      have hof : Expr.ofDfa cfg (Dfa.trie cls) = Expr.ofDfa (cfgPlain cfg.cap cfg.esc) (Dfa.trie cls) :=
+        ofDfa_congr (c1 := cfg) (c2 := cfgPlain cfg.cap cfg.esc) rfl _
+      have hwf := ofDfa_wf cfg.cap cfg.esc (Dfa.trie cls) hlab hdfs hacyc
+      have hlang := elimination_lang_acyclic cfg (Dfa.trie cls) (labelsBs_plain _ hlab) ht.pos hdfs hacyc
+      have hlangE : ∀ w : Word, (Expr.ofDfa cfg (Dfa.trie cls)).lang w ↔ w ∈ cls := by
+        intro w
+        rw [ofDfa_eq]
+        have hl := hlang w
+        rw [← accepts_iff_langFrom', Dfa.trie_exact cls hsimple w] at hl
+        split
+        · rename_i e he
+          rw [he] at hl
+          exact hl
+        · rename_i he
+          exfalso
+          have := (hlang (f t0))
+          rw [← accepts_iff_langFrom', Dfa.trie_exact cls hsimple, he] at this
+          exact this.mpr hwitness.1
+      rw [hf, h3]
+      exact ⟨by rw [hof]; exact hwf, fun w hw => (hlangE w).mp hw, fun w h1 _ => (hlangE w).mpr h1⟩
+    · -- the plain alternation of the clusters
+      have hne' : cls.map Expr.lit ≠ [] := by
+        intro hc
+        have := hwitness.1
+        cases cls with
+        | nil => simp at this
+        | cons a r => simp at hc
+      have hlangE : ∀ w : Word, (Expr.newAlternation (cls.map Expr.lit)).lang w ↔ w ∈ cls := by
+        intro w
+        rw [newAlternation_lang, langAny_iff]
+        constructor
+        · rintro ⟨e, he, hw⟩
+          obtain ⟨c, hc, rfl⟩ := List.mem_map.mp he
+          simp only [Expr.lang] at hw
+          subst hw; exact hc
+        · intro hw
+          exact ⟨Expr.lit w, List.mem_map.mpr ⟨w, hw, rfl⟩, rfl⟩
+      rw [hf]
+      refine ⟨wf_newAlternation _ ?_ hne', fun w hw => (hlangE w).mp hw, fun w h1 _ => (hlangE w).mpr h1⟩
+      intro e he
+      obtain ⟨c, hc, rfl⟩ := List.mem_map.mp he
+      exact hclP c hc
+  obtain ⟨hwf, hsub, hsup⟩ := hcand
+  rw [fmtRegExp_plainNA_eq cfg hp]
+  obtain ⟨P, hparse, hmatch⟩ := printed_acceptsA cfg.ci cfg.cap cfg.esc cfg.noStart cfg.noEnd _ hwf s hs
+  refine ⟨P, hparse, ?_, ?_⟩
+  · intro hm
+    obtain ⟨w, hw, hd⟩ := hmatch.mp hm
+    have hwc := hsub w hw
+    rw [hcl] at hwc
+    obtain ⟨t, ht, rfl⟩ := List.mem_map.mp hwc
+    rw [h1] at ht
+    have hpt := hpl t ht
+    exact ⟨t, (sortCases_mem' ws1 t).mp ht, by rw [← hpt.2]; exact hd⟩
+  · intro t htw htne hd
+    have hmem : t ∈ sortCases ws1 := (sortCases_mem' ws1 t).mpr htw
+    have hpt := hpl t hmem
+    apply hmatch.mpr
+    refine ⟨f t, hsup (f t) (by rw [hcl, h1]; exact List.mem_map.mpr ⟨t, hmem, rfl⟩) ?_, by rw [hpt.2]; exact hd⟩
+    intro hc
+    have := hpt.2
+    rw [hc] at this
+    cases t with
+    | nil => exact htne rfl
+    | cons a r => simp [atomsOf] at this
+
 /-- the same settings with `-e` switched on / off -/
 def withEsc (cfg : Config) (b : Bool) : Config := { cfg with esc := b }
 
 theorem plainPrintCI_withEsc (cfg : Config) (h : PlainPrintCI cfg) (b : Bool) : PlainPrintCI (withEsc cfg b) :=
-  ⟨h.rep, h.sur, h.verb, h.noStart, h.noEnd, h.color⟩
+  ⟨h.rep, h.sur, h.verb, h.color, h.anch⟩
 
 /-- **C11 / C06 for the model, all inputs: `-e` is notation only.** For every subset of the class options, with or
 without capturing groups and the case-insensitive option, everything else at its default: the build with `\u{…}`
@@ -193,6 +373,33 @@ theorem esc_same_language (cfg : Config) (hp : PlainPrintCI cfg) (env : Env) (ws
   refine ⟨PE, P0, pE, p0, ?_⟩
   have hiff : Spec.fullMatch cfg.ci PE s = true ↔ Spec.fullMatch cfg.ci P0 s = true := mE.trans m0.symm
   cases h : Spec.fullMatch cfg.ci PE s <;> cases h' : Spec.fullMatch cfg.ci P0 s
+  · rfl
+  · exact absurd (hiff.mpr h') (by simp [h])
+  · exact absurd (hiff.mp h) (by simp [h'])
+  · rfl
+
+/-- the same settings with the given anchor switches -/
+def withAnchors (cfg : Config) (ns ne : Bool) : Config := { cfg with noStart := ns, noEnd := ne }
+
+/-- **C08 for the model, all inputs: disabling one anchor does not change which strings are matched in full.** For
+every subset of the class options, with or without capturing groups, `-e` and `-i`: the build with both anchors and the
+build with the start anchor or the end anchor disabled are both accepted by the model of `Regex::new`, and the two compiled
+patterns match exactly the same strings of scalar values in full -/
+theorem anchors_same_language (cfg : Config) (hp : PlainPrintCI cfg) (ns ne : Bool) (hns : (ns && ne) = false)
+    (env : Env) (ws : List Str) (stA st0 : Stages)
+    (hA : regExpFrom (withAnchors cfg ns ne) env ws = .ok stA) (h0 : regExpFrom (withAnchors cfg false false) env ws = .ok st0)
+    (hseg : ∀ w ∈ storedCases cfg env ws, SegOK env w) (hne : ∃ t ∈ storedCases cfg env ws, t ≠ [])
+    (s : Str) (hs : ∀ c ∈ s, Scalar c) :
+    ∃ PA P0, Spec.parse (fmtRegExp (withAnchors cfg ns ne) stA.finalAst) = some (⟨cfg.ci, false⟩, PA) ∧
+      Spec.parse (fmtRegExp (withAnchors cfg false false) st0.finalAst) = some (⟨cfg.ci, false⟩, P0) ∧
+      Spec.fullMatch cfg.ci PA s = Spec.fullMatch cfg.ci P0 s := by
+  have hpA : PlainPrintCI (withAnchors cfg ns ne) := ⟨hp.rep, hp.sur, hp.verb, hp.color, hns⟩
+  have hp0 : PlainPrintCI (withAnchors cfg false false) := ⟨hp.rep, hp.sur, hp.verb, hp.color, rfl⟩
+  obtain ⟨PA, pA, mA⟩ := classes_exact_ci (withAnchors cfg ns ne) hpA env ws stA hA hseg hne s hs
+  obtain ⟨P0, p0, m0⟩ := classes_exact_ci (withAnchors cfg false false) hp0 env ws st0 h0 hseg hne s hs
+  refine ⟨PA, P0, pA, p0, ?_⟩
+  have hiff : Spec.fullMatch cfg.ci PA s = true ↔ Spec.fullMatch cfg.ci P0 s = true := mA.trans m0.symm
+  cases h : Spec.fullMatch cfg.ci PA s <;> cases h' : Spec.fullMatch cfg.ci P0 s
   · rfl
   · exact absurd (hiff.mpr h') (by simp [h])
   · exact absurd (hiff.mp h) (by simp [h'])
